@@ -8,6 +8,8 @@ Decided (structural necessary conditions in hosvd.py / tucker_als.py):
   EIG     hosvd stores eigenvector COLUMNS of the symmetric solver, permuted by a descending argsort keyed on that
           call's eigenvalues and truncated to a leading prefix (E6) — orthonormality then follows from eigh's contract;
           the reverse cumulative sum is taken over the DESCENDING eigenvalues
+  SLOT    the factor computed while processing mode k is stored in slot k of the returned list (or, if collected in
+          processing order, put back with argsort of that order — never gathered by the order itself)
   TTM-T   every projection (sequential shrink, final core, HOOI sweep, HOOI core) multiplies by the transposed factor
   FIT     Tucker-ALS reports fit = 1 - sqrt(|nX^2 - nG^2|) / nX with nG the norm of the current core (E7), the sweep
           excludes the mode being solved and solves it with nvecs of the projected tensor
@@ -88,8 +90,14 @@ def units(prog: Program, res: Result) -> None:
     desc = "the number of leading eigenvectors kept equals the rank (requested: a count; chosen: last index + 1)"
     sl = None
     for n in ast.walk(fi.node):
+        val = None
         if isinstance(n, ast.Assign) and isinstance(n.targets[0], ast.Subscript) and "factor_matrices" in ast.unparse(n.targets[0].value):
-            for s in ast.walk(n.value):
+            val = n.value
+        elif isinstance(n, ast.Expr) and isinstance(n.value, ast.Call) and isinstance(n.value.func, ast.Attribute) and n.value.func.attr == "append" \
+                and "factor_matrices" in ast.unparse(n.value.func.value) and n.value.args:
+            val = n.value.args[0]
+        if val is not None:
+            for s in ast.walk(val):
                 if isinstance(s, ast.Slice) and s.upper is not None:
                     sl = (s, n)
     if not auto or sl is None:
@@ -199,11 +207,56 @@ def fit(prog: Program, res: Result) -> None:
         res.bad("FIT", fi.short, desc, prog.loc(fi, loop_ok[1]), loop_ok[2][:160])
 
 
+def slot(prog: Program, res: Result) -> None:
+    """The factor computed for mode k ends up in slot k of the returned factor list."""
+    for short in ("hosvd.hosvd", "tucker_als.tucker_als"):
+        fi = prog.func(short)
+        loops = [n for n in ast.walk(fi.node) if isinstance(n, ast.For) and isinstance(n.target, ast.Name) and "dimorder" in ast.unparse(n.iter)
+                 and any(isinstance(x, ast.Call) and (dotted(x.func) or "").split(".")[-1] in ("eigh", "nvecs") for x in ast.walk(n))]
+        desc = "the factor computed for mode k is stored in slot k of the factor list"
+        if not loops:
+            res.undecided("SLOT", short, desc, prog.loc(fi), "mode loop not found")
+            continue
+        lp = loops[0]
+        v = lp.target.id
+        direct = [n for n in ast.walk(lp) if isinstance(n, ast.Assign) and isinstance(n.targets[0], ast.Subscript)
+                  and isinstance(n.targets[0].slice, ast.Name) and n.targets[0].slice.id == v
+                  and any(isinstance(x, ast.Call) and (dotted(x.func) or "").split(".")[-1] in ("nvecs",) or isinstance(x, ast.Subscript) for x in ast.walk(n.value))]
+        appends = [n for n in ast.walk(lp) if isinstance(n, ast.Call) and isinstance(n.func, ast.Attribute) and n.func.attr == "append"]
+        if direct and not appends:
+            res.ok("SLOT", short, desc, prog.loc(fi, direct[0]), ast.unparse(direct[0].targets[0]))
+            continue
+        if appends:
+            lst = ast.unparse(appends[0].func.value)
+            iter_txt = ast.unparse(lp.iter)
+            # the list is in processing order; it must be brought to mode order with argsort of the processing order
+            regather = [n for n in ast.walk(fi.node) if isinstance(n, ast.ListComp) and lst in ast.unparse(n.elt)]
+            verdict = None
+            for g in regather:
+                src = ast.unparse(g.generators[0].iter).replace(" ", "")
+                if "argsort" in src:
+                    verdict = ("OK", src)
+                elif src == iter_txt.replace(" ", "") or src in ("dimorder",):
+                    verdict = ("BAD", src)
+            if verdict and verdict[0] == "OK":
+                res.ok("SLOT", short, desc, prog.loc(fi, appends[0]), f"appended in processing order, regathered by {verdict[1]}")
+            elif verdict:
+                res.bad("SLOT", short, desc, prog.loc(fi, appends[0]),
+                        f"factors are appended in processing order ({iter_txt}) and then gathered BY that order ({verdict[1]}); putting them back into "
+                        "mode order needs its inverse (np.argsort): wrong for every non-involutive mode order")
+            else:
+                res.bad("SLOT", short, desc, prog.loc(fi, appends[0]),
+                        f"factors are appended in processing order ({iter_txt}) and never put back into mode order")
+        else:
+            res.undecided("SLOT", short, desc, prog.loc(fi, lp))
+
+
 def check(prog: Program, res: Result, tier: str) -> None:
     res.explanation = __doc__.split("\n\n", 1)[1]
     res.assumptions = ["scipy.linalg.eigh returns ascending real eigenvalues and orthonormal eigenvector columns",
                        "ttm(.., transpose=True) multiplies by the transposed matrices (C02)"]
-    res.floors = {"THR": 2, "UNITS": 1, "EIG": 2, "TTM-T": 4, "FIT": 3}
+    res.floors = {"THR": 2, "UNITS": 1, "EIG": 2, "TTM-T": 4, "FIT": 3, "SLOT": 2}
+    slot(prog, res)
     thr(prog, res)
     units(prog, res)
     eig(prog, res)
